@@ -289,6 +289,26 @@ func crossFileState(r *an.Run, m *runModel, rule string) {
 			if refs == nil {
 				continue
 			}
+			// the error accumulator object: inside the loop it is only ever fed (its recording methods), never
+			// read — what one file adds cannot change what happens to the next
+			if m.acc != nil && m.acc.obj != nil && v == ssa.Value(m.acc.obj) {
+				onlyFed := true
+				for _, u := range *refs {
+					if !loop.Blocks[u.Block()] {
+						continue
+					}
+					n++
+					c, isCall := u.(ssa.CallInstruction)
+					if !isCall || !isAccRecord(m, c) {
+						onlyFed = false
+						report(v, u, "used other than by recording an error")
+					}
+				}
+				if onlyFed {
+					r.Pass(short(f)+"|shared|error-accumulator", v.Pos(), "the error accumulator is only fed inside the file loop (never read there)")
+				}
+				continue
+			}
 			for _, u := range *refs {
 				if !loop.Blocks[u.Block()] {
 					continue
